@@ -19,7 +19,35 @@ RULE = ("scenario = one of the C01 / C03 / C04 / C07 scenario families (simple a
         "(scenario, encoding) hash")
 
 
+def gen_longline(rng):
+    """ a few old lines, then ONE very long line (20..70 KiB) that is the first line inside the
+    since window, then newer lines: the bisect probes land deep inside the long line, far
+    beyond any read-ahead a gzip-specific code path might use """
+    from datetime import timedelta
+    from vh import gen, matchers
+    t0 = gen.BASE
+    lines = [matchers.fmt_ts('std', t0 + timedelta(minutes=k)).encode() + b' old B %d' % k
+             for k in range(rng.choice([1, 2, 4]))]
+    t1 = t0 + timedelta(days=1)
+    lines.append(matchers.fmt_ts('std', t1).encode() + b' S first ' +
+                 b'y' * rng.choice([20000, 33000, 70000]))
+    lines += [matchers.fmt_ts('std', t1 + timedelta(minutes=k + 1)).encode() + b' B new %d' % k
+              for k in range(rng.choice([1, 3]))]
+    defs = [gen.gen_simple_def(rng) for _ in range(rng.choice([1, 2]))]
+    defs.append({'type': 'simple', 'pats': [r'\S+ \S+ (\w) (\w+)'], 'tag': 'ln', 'store': True})
+    return {'files': [{'name': 'f0.log', 'content': (b'\n'.join(lines) + b'\n').hex()}],
+            'defs': defs, 'regs': [[i, 0] for i in range(len(defs))],
+            'constraints': [{'current': (t1 + timedelta(days=1)).strftime('%Y-%m-%d %H:%M:%S'),
+                             'days': 1, 'matcher': 'std'}], 'global': 0}
+
+
 def gen_scenario(rng, tier):
+    if rng.random() < 0.03:
+        scn = gen_longline(rng)
+        scn['_family'] = 'longline'
+        scn['_encodings'] = [{'level': rng.choice([1, 6, 9]),
+                              'mtime': rng.choice([0, 946684800])}]
+        return scn
     fam = rng.choice(['c01', 'c03', 'c04', 'c04', 'c07', 'c07'])
     if fam == 'c01':
         scn = c01.gen_scenario(rng, tier)
@@ -56,6 +84,10 @@ def gen_scenario(rng, tier):
     members = rng.choice([2, 3, 4])
     encs.append({'level': rng.choice([1, 6, 9]), 'members': members,
                  'cuts': sorted(rng.randrange(0, n + 1) for _ in range(members - 1))})
+    # the MTIME field of the gzip member header is metadata: absent (0), in the year 2000, or
+    # recent - never something the search may depend on
+    for e in encs:
+        e['mtime'] = rng.choice([0, 0, 946684800, 1700000000])
     scn['_encodings'] = [rng.choice(encs[:3]), encs[3]] if tier == 'quick' else encs
     return scn
 
